@@ -966,7 +966,7 @@ pub fn run() {
       let ctx = make_ctx(family, &tier);
       let total = family_count(family, &ctx);
       total_cases += total;
-      let stall = Duration::from_secs(if tier == "thorough" { 30 } else { 8 });
+      let stall = Duration::from_secs(if tier == "thorough" { 30 } else { 20 });
       let t0 = std::time::Instant::now();
       let (outcomes, done, machinery) = isolate::drive(exe, &["c05worker".to_string(), family.to_string(), tier.clone()], 16, total, stall, &format!("c05_{}_{}", pname, family));
       for m in machinery {
